@@ -131,6 +131,14 @@ func (p *BlockParser) NextBlock() (*RootBlock, error) {
 		}
 		if hasText {
 			addLineText(lp)
+		} else if lp.container != nil {
+			// The line was consumed whole by the start or the end of a block,
+			// so it is not blank:
+			// none of the blocks it belongs to ends in a blank line any longer.
+			// (addLineText does this for all other lines.)
+			for c := &lp.root; c != nil; c = c.lastChild().Block() {
+				c.lastLineBlank = false
+			}
 		}
 		if next := p.makeRoot(lp.root.blockChildren); next != nil {
 			return next, nil
